@@ -78,7 +78,13 @@ def block_imag(ctx, tm, psi, as_mpdm=False):
                 errs.append(float(np.linalg.norm(dense_state(out) - ref)))
             check_normalised(out, nm, spec)
         except Exception as e:
-            run.violation(f"{nm}:imag-time:exception:{exc_sig(e)}", replay_base(tm, v0, spec, T=T, error=repr(e)))
+            sig = f"{nm}:imag-time:exception:{exc_sig(e)}"
+            if spec["kind"] == "cmf" and spec.get("trapz") and isinstance(e, AssertionError) and exc_sig(e).endswith("@astype") \
+                    and not np.iscomplexobj(v0):
+                # same cause as the lost order: the midpoint environment is propagated in REAL time and is
+                # complex; the trapezoid variant copies its last site into the real-valued state
+                sig = "tdvp_mu_cmf:imag-time:midpoint-environment-in-real-time"
+            run.violation(sig, replay_base(tm, v0, spec, T=T, error=repr(e)))
             continue
         verdict, obs = order_verdict(errs, p, floor)
         ctx.evald(("imag-order", label, nm), moved)
@@ -87,7 +93,7 @@ def block_imag(ctx, tm, psi, as_mpdm=False):
             sig = f"{nm}:imag-time:order"
             if spec["kind"] == "cmf" and spec.get("midpoint", True):
                 # one cause for the midpoint and the trapezoid variants and both local solvers
-                sig = "tdvp_mu_cmf:imag-time:second-order-lost"
+                sig = "tdvp_mu_cmf:imag-time:midpoint-environment-in-real-time"
             run.violation(sig, replay_base(tm, v0, spec, T=T, steps=list(Ns), errors=errs, observed_order=obs, advertised=p, mpdm=as_mpdm))
 
     # --- VMF variants: tolerance
